@@ -67,9 +67,12 @@ CHECKS["C04"] = dict(
          "whose reset/step/notify follow the code's own steps; the declarative invariants ExactlyOnce, OnTime, InOrder, "
          "ClockIsLatest, LatencyRule are checked in every state. Every maximal call history is replayed into a real "
          "Transmitter+TradingEnv with a recording observer and the delivered notifications (event, order, clock, side of the "
-         "execution) and env.now() are compared call by call.",
+         "execution) and env.now() are compared call by call. A second lattice in units of 0.1 ms covers sub-second stamps. In "
+         "the other direction the repository's own regression back-tests run under a recording pytest plugin and TLC validates "
+         "every recorded episode against EnvTrace.tla (order, clock, new-date, stamp, ended).",
     design="5 C04", technique="TLA+ spec (Env.tla/TransmitterOps.tla) model-checked with TLC; every maximal behaviour replayed "
-                              "into the real TradingEnv", note=ENV_NOTE)
+                              "into the real TradingEnv; episodes recorded from the repository's tests validated by TLC "
+                              "(EnvTrace.tla)", note=ENV_NOTE)
 CHECKS["C08"] = dict(
     text="Env.tla with bar-shaped streams plus extra quotes at and 1 s beyond the latency bound, delays 0..2, Box and Discrete "
          "spaces: TLC checks FifoDelay, ExecPricedAtLatencyCut, LatencyRule, StampIsLatest, NullActionExecutes; every behaviour "
@@ -219,9 +222,10 @@ def build():
         "setup_cmd": "./setup.sh",
         "hooks": {
             "guard": "TRADINGENV_VERIF",
-            "enable": "no source hooks: the harness observes through the public API, an observer Feature and run-time "
-                      "wrappers installed by /verif/harness only; TRADINGENV_VERIF=1 is exported by the harness and is "
-                      "not read by /repo",
+            "enable": "no source hooks in /repo: the harness observes through the public API, an observer Feature and run-time "
+                      "wrappers installed by /verif/harness only; TRADINGENV_VERIF=1 (with TRADINGENV_VERIF_TRACE=<file>) "
+                      "switches on the recording pytest plugin /verif/harness/pytest_plugin.py (python -m pytest -p "
+                      "harness.pytest_plugin); nothing in /repo reads the variable",
             "baseline_off_cmd": "cd /repo && env -u TRADINGENV_VERIF /venv/bin/python -m pytest -ra -q -p no:cacheprovider "
                                 "--timeout=900 --continue-on-collection-errors",
             "source_commits": [],
